@@ -38,11 +38,14 @@ fn builder(c: &Case) -> SessionBuilder<C> {
 /// Returns (calls made, Some((call index, mismatched frames)) if a mismatch was reported, the call in which the
 /// deviating (k-th) simulation of X happened).
 fn drive(c: &Case, nondet: Option<(i32, u32)>, prop: &'static str, out: &mut Outcome) -> Option<(i32, Option<(i32, Vec<i32>)>, Option<i32>)> {
-    drive_mode(c, nondet, prop, out, 0)
+    drive_mode(c, nondet, prop, out, 0, false)
 }
 
 /// `cks`: 0 = every save carries a checksum, 1 = no save does, n >= 2 = only frames divisible by n do.
-fn drive_mode(c: &Case, nondet: Option<(i32, u32)>, prop: &'static str, out: &mut Outcome, cks: i32) -> Option<(i32, Option<(i32, Vec<i32>)>, Option<i32>)> {
+/// `retry`: every few calls the application first submits DECOY values for all players but the last and calls
+/// advance_frame (which must fail with InvalidRequest and change nothing), then submits the real values for everybody and
+/// calls it again: the session must use the values submitted last (round-7 seed C13).
+fn drive_mode(c: &Case, nondet: Option<(i32, u32)>, prop: &'static str, out: &mut Outcome, cks: i32, retry: bool) -> Option<(i32, Option<(i32, Vec<i32>)>, Option<i32>)> {
     let mut sess = match guarded(|| builder(c).start_synctest_session()) {
         Ok(Ok(s)) => s,
         Ok(Err(e)) => {
@@ -64,6 +67,26 @@ fn drive_mode(c: &Case, nondet: Option<(i32, u32)>, prop: &'static str, out: &mu
     let mut first_sim_call: Option<i32> = None;
     for call in 0..c.frames {
         let cf = sess.current_frame();
+        if retry && c.np >= 2 && call % 5 == 3 {
+            for h in 0..c.np - 1 {
+                let _ = sess.add_local_input(h, input_value(c.seed ^ 0xDEC0, h, cf, 1));
+            }
+            match guarded(|| sess.advance_frame()) {
+                Ok(Err(GgrsError::InvalidRequest { .. })) => out.count("synctest_rejected_calls_with_a_missing_input", 1),
+                Ok(other) => {
+                    out.violate(viol("advance_frame with a missing input was not rejected with InvalidRequest", format!("call {call}: {:?}", other.map(|r| r.len()))));
+                    return None;
+                }
+                Err(p) => {
+                    out.violate(Viol { prop, panic: Some(p.clone()), ..viol("panic in SyncTestSession::advance_frame", format!("{} at {}", p.msg, p.loc)) });
+                    return None;
+                }
+            }
+            if sess.current_frame() != cf {
+                out.violate(viol("a rejected advance_frame moved the session", format!("current_frame() {} -> {}", cf, sess.current_frame())));
+                return None;
+            }
+        }
         for h in 0..c.np {
             if let Err(e) = sess.add_local_input(h, input_value(c.seed, h, cf, 1)) {
                 out.violate(viol("add_local_input rejected for a valid handle", format!("{e:?}")));
@@ -150,8 +173,19 @@ pub fn run_case(c: &Case) -> Outcome {
     // GameStateCell::save; there is then nothing to compare, never a mismatch)
     for cks in [1, 2, 3] {
         out.count("deterministic_runs_with_partial_or_no_checksums", 1);
-        if let Some((_, Some((call, frames)), _)) = drive_mode(c, None, "C13", &mut out, cks) {
+        if let Some((_, Some((call, frames)), _)) = drive_mode(c, None, "C13", &mut out, cks, false) {
             out.violate(viol("MismatchedChecksum for a deterministic game", format!("game saving {}: at call {call}, frames {frames:?}", if cks == 1 { "without checksums".to_string() } else { format!("with a checksum on every {cks}th frame only") })));
+            return out;
+        }
+        if !matches!(out.verdict, Verdict::Held) {
+            return out;
+        }
+    }
+    // ... and when the application retries after a rejected call with different values (the values submitted last count)
+    if c.np >= 2 {
+        out.count("deterministic_runs_with_rejected_calls_and_retries", 1);
+        if let Some((_, Some((call, frames)), _)) = drive_mode(c, None, "C13", &mut out, 0, true) {
+            out.violate(viol("MismatchedChecksum for a deterministic game", format!("run with rejected calls and retries: at call {call}, frames {frames:?}")));
             return out;
         }
         if !matches!(out.verdict, Verdict::Held) {
@@ -274,7 +308,7 @@ pub fn check(ctx: &Ctx) -> i32 {
     extra.insert("grid".into(), json!("players 1..=4 x window 0..=12 x check_distance 0..=13 x delay (quick {0,1,3,8}, thorough 0..=8) x sparse flag; every point is visited; plus 10 far-corner configurations (windows up to 200, delays up to 119, check distances up to 50) run for 400 frames"));
     let meta = Meta {
         level: "exploration",
-        rule: "exhaustive grid of builder configurations: invalid ones (check_distance >= window, sparse saving) must be rejected with InvalidRequest, valid ones are run for 150 (quick) / 300 (thorough) frames with unique random inputs on a deterministic game — saving with a checksum on every frame, on no frame, on every 2nd and on every 3rd frame — (no MismatchedChecksum, request contract, every input Confirmed and equal to the submission delayed as configured) and, for check_distance >= 2, with a game whose k-th simulation (every k in 1..=min(check_distance, X)+1, i.e. the first simulation or any re-simulation) of frame X is perturbed, X over a placement set (quick: every X in 1..=check_distance+1, i.e. including the frames simulated before the first rollback, plus 6 random placements up to 60; thorough: every X in 1..=60): MismatchedChecksum must follow within check_distance+2 calls of the deviating simulation and name X+1 as first affected frame. Non-trivial: rejected invalid configuration, or valid configuration with check_distance >= 2 (comparison active) and >= 100 frames. Distinct: grid point.".into(),
+        rule: "exhaustive grid of builder configurations: invalid ones (check_distance >= window, sparse saving) must be rejected with InvalidRequest, valid ones are run for 150 (quick) / 300 (thorough) frames with unique random inputs on a deterministic game — saving with a checksum on every frame, on no frame, on every 2nd and on every 3rd frame, and (two or more players) with every fifth call preceded by a rejected call that submitted decoy values for all players but the last — (no MismatchedChecksum, request contract, every input Confirmed and equal to the submission delayed as configured) and, for check_distance >= 2, with a game whose k-th simulation (every k in 1..=min(check_distance, X)+1, i.e. the first simulation or any re-simulation) of frame X is perturbed, X over a placement set (quick: every X in 1..=check_distance+1, i.e. including the frames simulated before the first rollback, plus 6 random placements up to 60; thorough: every X in 1..=60): MismatchedChecksum must follow within check_distance+2 calls of the deviating simulation and name X+1 as first affected frame. Non-trivial: rejected invalid configuration, or valid configuration with check_distance >= 2 (comparison active) and >= 100 frames. Distinct: grid point.".into(),
         assumptions: vec!["harness game is deterministic unless told otherwise".into(), "held on the executions produced, not verified".into()],
         floor_nontrivial: 500,
         exhaustive: Some(true),
